@@ -76,7 +76,7 @@ func zzSame(a any, aok bool, b any, bok bool) bool {
 // VerifC17_Ops: every operation sequence over a small name universe behaves
 // like a stack of scopes (differential against the reference above).
 func VerifC17_Ops() {
-	L := zzBound("L", 4, 5)
+	L := zzBound("L", 3, 4)
 	var rootData any
 	rootMap := map[string]any{}
 	switch zzChoice("root", 6) {
@@ -103,7 +103,11 @@ func VerifC17_Ops() {
 	ref.scopes = []map[string]any{rm}
 	next := 1
 	for step := 0; step < L; step++ {
-		switch zzChoice("op", 7) {
+		switch zzChoice("op", 8) {
+		case 7: // Set to nil: the name is bound (to nil) in the innermost scope and shadows outer bindings
+			n := zzC17Names[zzChoice("name", len(zzC17Names))]
+			s.Set(n, nil)
+			ref.scopes[len(ref.scopes)-1][n] = nil
 		case 6: // the caller changes the struct behind the root pointer: lookups and the merged environment follow
 			if p, ok := rootData.(*zzC17Root); ok {
 				p.A = 1000 + next
